@@ -10,6 +10,8 @@ func init() {
 	verifRegister("VerifC02_ETro", VerifC02_ETro)
 	verifRegister("VerifC02_EBlocked", VerifC02_EBlocked)
 	verifRegister("VerifC02_ETwin", VerifC02_ETwin)
+	verifRegister("VerifC02_EBody", VerifC02_EBody)
+	verifRegister("VerifC02_ENest", VerifC02_ENest)
 }
 
 // tail-loop shapes: the recursive call (f (- n 1)) sits in tail position through SHAPE.
@@ -74,6 +76,130 @@ func VerifC02_ETwin() {
 	cleanRuntime(e0, "user")
 	cleanRuntime(e1, "user")
 	cleanRuntime(e2, "user")
+	vCover("end")
+}
+
+// Generated tail positions: a solver-chosen leaf call (direct, funcall / apply in every argument
+// layout, thread-first/last, a second function) wrapped in `wraps` solver-chosen constructs out of
+// the property's list, nested in any order.
+var nestLeaves = []string{
+	"(f (- n 1))",
+	"(funcall 'f (- n 1))",
+	"(funcall f (- n 1))",
+	"(apply 'f (list (- n 1)))",
+	"(apply f (- n 1) ())",
+	"(apply 'f (- n 1) (list))",
+	"(thread-first (- n 1) (f))",
+	"(thread-last (- n 1) (f))",
+	"(g2 (- n 1))",
+}
+
+var nestWraps = []string{
+	"%s",
+	"(progn 1 %s)",
+	"(if true %s 'no)",
+	"(if false 'no %s)",
+	"(cond (false 'no) (:else %s))",
+	"(cond ((> n 0) %s) (:else 'no))",
+	"(let ((m 1)) %s)",
+	"(let* ((m 1) (k m)) %s)",
+	"(flet ((g (x) x)) %s)",
+	"(labels ((g (x) x)) %s)",
+	"(or false %s)",
+	"(dotimes (i 1 %s) i)",
+	"(funcall (lambda () %s))",
+	"(apply (lambda () %s) ())",
+}
+
+func VerifC02_ENest() {
+	wraps := vParam("wraps", 2)
+	expr := nestLeaves[vConcInt(vndChoice("leaf", len(nestLeaves)))]
+	desc := ""
+	for i := 0; i < wraps; i++ {
+		w := vConcInt(vndChoice("wrap"+itoa(i), len(nestWraps)))
+		desc += itoa(w) + " "
+		expr = strings.Replace(nestWraps[w], "%s", expr, 1)
+	}
+	shape := "(defun g2 (n) (f n)) (defun f (n) (height) (probe n) (if (= n 0) 'done " + expr + "))"
+	n := vParam("N", 3)
+	ps0, r0, env0 := runTro(shape, n, 0)
+	ps1, r1, env1 := runTro(shape, n, 1)
+	vObserve("expr", expr)
+	vAssert(r0.Type == lisp.LSymbol && r0.Str == "done", "the loop terminates with its value: "+outcome(r0))
+	vAssert(outcome(r0) == outcome(r1), "same result with elimination off (debugger attached)")
+	vAssert(sameStrings(ps0.effects, ps1.effects), "same effects with elimination off")
+	vAssert(len(ps0.heights) == n+1, "one height sample per turn")
+	for i := range ps0.heights {
+		vAssert(ps0.heights[i] == ps0.heights[0], "call-stack height does not grow with the number of iterations: "+joinInts(ps0.heights))
+	}
+	vAssert(ps1.heights[n] > ps1.heights[0], "with elimination off the stack really grows (the twin is not vacuous)")
+	cleanRuntime(env0, "user")
+	cleanRuntime(env1, "user")
+	vCover("end")
+}
+
+// Generated multi-form function bodies: two solver-chosen NON-final forms (plain, guarded, nested,
+// mutual and let-bound self calls, counters, probes) followed by a solver-chosen final form (tail
+// call through if / cond / let / funcall / a second function, or a non-tail call).  Only the final
+// form of a body is in tail position — on every turn of an eliminated loop, not just the first.
+var bodyPre = []string{
+	"",
+	"(probe n)",
+	"(if (= n 1) (f 0) ())",
+	"(set 'cnt (+ cnt 1))",
+	"(if (> n 0) (g (- n 2)) ())",
+	"(let ((r (if (> n 1) (f (- n 2)) 0))) (probe r))",
+	"(and (>= n 3) (f (- n 3)))",
+	"(progn (if (= n 2) (f 0) ()) (probe 'p))",
+	"(f (- n 2))",
+}
+
+var bodyFinal = []string{
+	"(if (<= n 0) cnt (f (- n 1)))",
+	"(cond ((<= n 0) (list cnt n)) (:else (f (- n 1))))",
+	"(if (<= n 0) 'end (g (- n 1)))",
+	"(if (<= n 0) cnt (+ 0 (f (- n 1))))",
+	"(if (<= n 0) cnt (funcall f (- n 1)))",
+	"(if (<= n 0) cnt (let ((m (- n 1))) (f m)))",
+}
+
+func VerifC02_EBody() {
+	p1 := vConcInt(vndChoice("pre1", len(bodyPre)))
+	p2 := vConcInt(vndChoice("pre2", len(bodyPre)))
+	fi := vConcInt(vndChoice("final", len(bodyFinal)))
+	n := vndInt("n")
+	vAssume(n >= 0)
+	vAssume(n <= vParam("N", 3))
+	// the unguarded self call must come with a base case of its own
+	guard := "(if (<= n 0) (set 'cnt (+ cnt 100)) "
+	pre := func(i int) string {
+		if bodyPre[i] == "(f (- n 2))" {
+			return guard + bodyPre[i] + ")"
+		}
+		return bodyPre[i]
+	}
+	src := "(set 'cnt 0) (defun g (m) (probe (list 'g m)) (f m)) (defun f (n) " + pre(p1) + " " + pre(p2) + " " + bodyFinal[fi] + ") (list (f n0) cnt)"
+	run := func(twin int) (*probeState, *lisp.LVal, *lisp.LEnv) {
+		var cfg []lisp.Config
+		if twin == 1 {
+			cfg = append(cfg, lisp.WithDebugger(dormantDebugger{}))
+		}
+		ps := &probeState{}
+		env := newEnv(ps, cfg...)
+		env.PutGlobal(lisp.Symbol("n0"), lisp.Int(n))
+		return ps, env.LoadString("p", src), env
+	}
+	ps0, r0, e0 := run(0)
+	ps1, r1, e1 := run(1)
+	vObserve("pre1", p1)
+	vObserve("pre2", p2)
+	vObserve("final", fi)
+	vObserve("value", outcome(r0))
+	vAssert(r1.Type != lisp.LError, "the program has a value without elimination: "+outcome(r1))
+	vAssert(outcome(r0) == outcome(r1), "same value with elimination on and off: "+outcome(r0)+" / "+outcome(r1))
+	vAssert(sameStrings(ps0.effects, ps1.effects), "same effects in the same order")
+	cleanRuntime(e0, "user")
+	cleanRuntime(e1, "user")
 	vCover("end")
 }
 
